@@ -284,3 +284,41 @@ Example haqq_instance_nonvacuous :
   = snd (go (7%Z, hrebuild Z [1; 2]%N 7%Z) (never (hblock Z) bs)) /\
   length (snd (go (7%Z, hrebuild Z [1; 2]%N 7%Z) (never (hblock Z) bs))) = 3.
 Proof. vm_compute. split; reflexivity. Qed.
+
+(** * Correspondence with the real keeper fields
+    The driver records, for every lineage (continuous node, restarted node,
+    nodes opened on a copy of the database) and every block it executes: the
+    chain id cached in the EVM keeper before and after the block and the
+    keeper's registry (available precompile addresses) after the block.  The
+    model predicts them with [hstep] on a node whose transactions do nothing. *)
+Definition mem_case := (Z * list N * list (option Z * list (option Z * option Z * list N)))%type.
+
+Fixpoint mem_trace_ok (cid : Z) (m : hmem) (tr : list (option Z * option Z * list N)) : bool :=
+  match tr with
+  | [] => true
+  | (before, after, reg) :: tr' =>
+      let m' := snd (fst (hstep unit unit unit (fun d _ _ _ => (d, tt)) (fun d => d) (tt, m) (mk_hblock unit cid []))) in
+      match before, m_chain m with
+      | None, None => true
+      | Some x, Some y => (x =? y)%Z
+      | _, _ => false
+      end
+      && match after, m_chain m' with
+         | Some x, Some y => (x =? y)%Z
+         | _, _ => false
+         end
+      && (if list_eq_dec N.eq_dec reg (m_reg m') then true else false)
+      && mem_trace_ok cid m' tr'
+  end.
+
+Definition mem_case_ok (c : mem_case) : bool :=
+  let '(cid, static, lins) := c in
+  forallb (fun l : option Z * list (option Z * option Z * list N) =>
+             mem_trace_ok cid (mk_hmem (fst l) static 0) (snd l)) lins.
+
+Fixpoint mem_mismatches_from (i : nat) (cs : list mem_case) : list nat :=
+  match cs with
+  | [] => []
+  | c :: r => if mem_case_ok c then mem_mismatches_from (S i) r else i :: mem_mismatches_from (S i) r
+  end.
+Definition mem_mismatches (cs : list mem_case) : list nat := mem_mismatches_from 0 cs.
